@@ -349,3 +349,8 @@ SOAP_HTTP_TRANSPORT = "http://schemas.xmlsoap.org/soap/http"  # WSDL 1.1 SOAP bi
 
 def loops_exhausted():
     raise NotImplementedError("loops_exhausted() is a symbolic-only builtin")
+
+
+def ascii_lower(c):
+    """Lower-case image of an ASCII capital letter."""
+    return chr(ord(c) + 32)
